@@ -37,43 +37,64 @@ def diff_keys(a: dict, b: dict):
 LABELS = ("gengy_labeled", "gengy_nodes", "gengy_distance_to_term", "gengy_weighted_nodes")
 
 
-def node_snapshot(v, ref, seen=None):
-    """canonical structure plus, per node and list, the gengy labels, the types index as
-    {typename: [canon of entries]} and the synthesis context."""
+def _h(*parts) -> str:
+    import hashlib
+
+    return hashlib.sha256("\x1f".join(str(p) for p in parts).encode("utf-8", "backslashreplace")).hexdigest()[:20]
+
+
+def node_snapshot(v, ref, memo=None):
+    """Digest of the canonical structure plus, per node and list, the gengy labels, the types
+    index ({typename: digests of its entries}) and the synthesis context.  Memoised per object
+    so that the (quadratic) types index of large trees stays cheap."""
+    memo = {} if memo is None else memo
+    return _snap(v, ref, memo)
+
+
+def _snap(v, ref, memo):
+    k = id(v)
+    hit = memo.get(k)
+    if hit is not None and hit[0] is v:
+        return hit[1]
     if isinstance(v, list):
-        kids = tuple(node_snapshot(e, ref) for e in v)
-        return ("list", kids, _labels(v, ref))
-    if type(v) is tuple:
-        return ("tuple", tuple(node_snapshot(e, ref) for e in v))
-    n = ref.cls_of(v)
-    if n is None:
-        return canon(v, ref)
-    kids = tuple((fn, node_snapshot(getattr(v, fn, None), ref)) for fn, _ in ref.cls[n]["fields"])
-    init = getattr(v, "gengy_init_values", None)
-    init_c = tuple(canon(x, ref) for x in init) if isinstance(init, (list, tuple)) else None
-    return (n, kids, _labels(v, ref), init_c)
+        d = _h("list", *[_snap(e, ref, memo) for e in v])
+        memo[k] = (v, d)  # structure first (labels refer to descendants)
+        d = _h(d, _labels(v, ref, memo))
+    elif type(v) is tuple:
+        d = _h("tuple", *[_snap(e, ref, memo) for e in v])
+    else:
+        n = ref.cls_of(v)
+        if n is None:
+            d = _h("v", repr(canon(v, ref)))
+        else:
+            kids = [fn + "=" + _snap(getattr(v, fn, None), ref, memo) for fn, _ in ref.cls[n]["fields"]]
+            init = getattr(v, "gengy_init_values", None)
+            init_d = [_snap(x, ref, memo) for x in init] if isinstance(init, (list, tuple)) else ["<none>"]
+            d = _h(n, *kids, "init", *init_d)
+            memo[k] = (v, d)
+            d = _h(d, _labels(v, ref, memo))
+    memo[k] = (v, d)
+    return d
 
 
-def _labels(v, ref):
+def _labels(v, ref, memo):
     d = getattr(v, "__dict__", {})
-    out = []
-    for k in LABELS:
-        out.append(d.get(k, "<absent>"))
+    out = [repr(d.get(k, "<absent>")) for k in LABELS]
     ttw = d.get("gengy_types_this_way")
     if isinstance(ttw, dict):
-        out.append(tuple(sorted((tname(k), tuple(canon(x, ref) for x in vs)) for k, vs in ttw.items())))
+        out.append(_h(*sorted(tname(k) + ":" + ",".join(_snap(x, ref, memo) for x in vs) for k, vs in ttw.items())))
     else:
         out.append("<absent>")
     sc = d.get("gengy_synthesis_context")
     if sc is not None:
         try:
-            dv = tuple(sorted((k, canon(x, ref)) for k, x in sc.dependent_values.items()))
+            dv = ",".join(f"{k}={_snap(x, ref, memo)}" for k, x in sorted(sc.dependent_values.items()))
         except Exception:
             dv = "<?>"
-        out.append((sc.depth, sc.nodes, sc.expansions, dv))
+        out.append(f"{sc.depth}/{sc.nodes}/{sc.expansions}/{dv}")
     else:
         out.append("<absent>")
-    return tuple(out)
+    return _h(*out)
 
 
 def genotype_snapshot(g, rep_kind, ref):
